@@ -342,7 +342,9 @@ def run(ctx):
         mon.expression(ast, inputs, lambda w: 2 if len(w) <= 5 else 1)
         ctx.count('expressions:control-symbols')
     # multi-byte literal expressions over bytes
-    mb_atoms = [('lit', 'a'), ('lit', 'é'), ('lit', 'ж'), ('lit', '€'), ('lit', '😀')]
+    mb_atoms = [('lit', 'a'), ('lit', 'é'), ('lit', 'ж'), ('lit', '€'), ('lit', '😀'),
+                # symbols that Unicode normalisation, case folding or compatibility mapping would replace by another code point
+                ('lit', '\u2126'), ('lit', '\u212a'), ('lit', '\u212b'), ('lit', '\u1f71'), ('lit', '\uf900'), ('lit', '\ufb01'), ('lit', '\u00b5'), ('lit', '\u017f')]
     rounds = 120 if quick else 100000
     for i in range(rounds):
         if ctx.expired():
